@@ -3,9 +3,11 @@ package main
 import (
 	"encoding/json"
 	"errors"
+	"fmt"
 	"sort"
 	"strconv"
 	"strings"
+	"sync"
 
 	openfgav1 "github.com/openfga/api/proto/openfga/v1"
 	"google.golang.org/protobuf/proto"
@@ -180,5 +182,59 @@ func init() {
 		res["builds"] = builds
 		res["model_unchanged"] = proto.Equal(before, m)
 		return res, nil
+	})
+}
+
+// C06 (histories): one builder object used for a sequence of different models, one after the other and from
+// several goroutines at once; every outcome is reported next to that of a fresh builder.
+func init() {
+	register("wgraph_shared", func(req json.RawMessage) (any, error) {
+		var q struct {
+			Ms     []any `json:"ms"`
+			Rounds int   `json:"rounds"`
+		}
+		if err := json.Unmarshal(req, &q); err != nil {
+			return nil, err
+		}
+		ms := make([]*openfgav1.AuthorizationModel, 0, len(q.Ms))
+		for _, x := range q.Ms {
+			m, err := decModel(x)
+			if err != nil {
+				return nil, err
+			}
+			ms = append(ms, m)
+		}
+		fresh, seq := A{}, A{}
+		for _, m := range ms {
+			wg, e := graph.NewWeightedAuthorizationModelGraphBuilder().Build(m)
+			fresh = append(fresh, encGResult(wg, e, m))
+		}
+		shared := graph.NewWeightedAuthorizationModelGraphBuilder()
+		for _, m := range ms {
+			wg, e := shared.Build(m)
+			seq = append(seq, encGResult(wg, e, m))
+		}
+		conc := A{}
+		for r := 0; r < q.Rounds; r++ {
+			b := graph.NewWeightedAuthorizationModelGraphBuilder()
+			outs := make([]any, len(ms))
+			var w sync.WaitGroup
+			for i, m := range ms {
+				w.Add(1)
+				go func(i int, m *openfgav1.AuthorizationModel) {
+					defer w.Done()
+					defer func() {
+						if p := recover(); p != nil {
+							outs[i] = map[string]any{"ok": 0, "class": 8, "msg": encStr(fmt.Sprint("panic: ", p)), "has_graph": false}
+						}
+					}()
+					wg, e := b.Build(m)
+					outs[i] = encGResult(wg, e, m)
+				}(i, m)
+			}
+			w.Wait()
+			conc = append(conc, A(outs))
+		}
+		return map[string]any{"fresh": fresh, "seq": seq, "conc": conc}, nil
 	})
 }
